@@ -150,10 +150,13 @@ def _verify_workspace(proj, info, executed, meta, stats, provenance_seen):
     # one workspace may be reached over several package paths (identical variant):
     # the trail records one of them
     paths_of_ws = {}
+    recipes_of_vid = {}
     for path, ent in info.items():
         for label, s in ent["steps"].items():
             if s.get("valid"):
                 paths_of_ws.setdefault(s["ws"], set()).add(path)
+                if label == "dist":
+                    recipes_of_vid.setdefault(s["vid"], set()).add(ent["recipe"])
     # Which workspaces did the last invocation visit?  Bob descends into the dependencies of a
     # package only if it builds it; a downloaded or shared package ends the descent.
     by_dist = {}
@@ -225,11 +228,20 @@ def _verify_workspace(proj, info, executed, meta, stats, provenance_seen):
             exp = {"recipe": ent["recipe"], "step": label, "language": "bash"}
             for k, v in exp.items():
                 if m.get(k) != v:
+                    # a downloaded or shared result carries the trail of whoever produced the artifact:
+                    # with identical recipes under two names (equal Build-Ids) that may be the twin
+                    if k == "recipe" and label == "dist" and s.get("prov") in ("downloaded", "shared") \
+                            and m.get(k) in recipes_of_vid.get(s["vid"], ()):
+                        stats.inc("probe_trail_of_identical_twin_recipe")
+                        continue
                     return "%s: meta.%s is %r, expected %r" % (where, k, m.get(k), v)
             # (the query lists every distinct package once, under one of its paths; the trail may
             # carry another path of the same package, so only root and package name are compared)
             mp = (m.get("package") or "").split("/")
-            if m.get("package") not in paths_of_ws[s["ws"]] and not (mp[0] == path.split("/")[0] and mp[-1] == path.split("/")[-1]):
+            twin_ok = (label == "dist" and s.get("prov") in ("downloaded", "shared")
+                       and mp[-1] in recipes_of_vid.get(s["vid"], ()))
+            if m.get("package") not in paths_of_ws[s["ws"]] and not twin_ok \
+                    and not (mp[0] == path.split("/")[0] and mp[-1] == path.split("/")[-1]):
                 return "%s: meta.package is %r, expected a path of package %s" % (where, m.get("package"), sorted(paths_of_ws[s["ws"]]))
             if "bob" not in m:
                 return "%s: meta.bob missing" % where
